@@ -198,6 +198,24 @@ func F2(thorough bool) []*Program {
 				fn("NewT0", []string{"I0", "*T2"}, []string{"*T0"}, false),
 			}}}})
 	}
+	// One declaration binds a constructor to an interface, a later declaration of the same
+	// file uses the same constructor unbound: the interface is then an injector parameter
+	// (first program) or supplied by another bound constructor (second program).
+	add(&Program{Desc: "bind in one declaration, same constructor unbound in the next (interface becomes a parameter)", Types: typeNames(3), Ifaces: map[string]string{"I0": "T1"}, Decls: []Decl{
+		{Name: "InitP", Request: "*T0", Provs: []Prov{
+			func() Prov { p := fn("NewT1", nil, []string{"*T1"}, false); p.Bind = "I0"; return p }(),
+			fn("NewT0", []string{"I0"}, []string{"*T0"}, false)}},
+		{Name: "InitQ", Request: "*T2", Provs: []Prov{
+			fn("NewT1", nil, []string{"*T1"}, false),
+			fn("NewT2", []string{"*T1", "I0"}, []string{"*T2"}, false)}}}})
+	add(&Program{Desc: "bind in one declaration, same constructor unbound in the next (another supplier of the interface)", Types: typeNames(4), Ifaces: map[string]string{"I0": "T1"}, Consts: []string{"func (*T3) isI0() {}"}, Decls: []Decl{
+		{Name: "InitP", Request: "*T0", Provs: []Prov{
+			func() Prov { p := fn("NewT1", nil, []string{"*T1"}, false); p.Bind = "I0"; return p }(),
+			fn("NewT0", []string{"I0"}, []string{"*T0"}, false)}},
+		{Name: "InitQ", Request: "*T2", Provs: []Prov{
+			fn("NewT1", nil, []string{"*T1"}, false),
+			func() Prov { p := fn("NewT3", nil, []string{"*T3"}, false); p.Bind = "I0"; return p }(),
+			fn("NewT2", []string{"*T1", "I0"}, []string{"*T2"}, false)}}}})
 	// Bind written around Async
 	add(&Program{Desc: "bind-outside-async", Types: typeNames(3), Ifaces: map[string]string{"I0": "T1"}, Decls: []Decl{{
 		Name: "InitP", Request: "*T0", Provs: []Prov{
